@@ -79,3 +79,11 @@ Theorem c14_nested_instance :
 Proof. exact Rel.c14_nested_instance. Qed.
 Print Assumptions c14_nested_instance.
 
+
+(* the code sorts the enumerated keys of a map by byte order, right after enumerating them, wherever it enumerates one on the evaluation path *)
+From Bexpr Require Import GoTables TieOrder.
+Theorem c14_code_visits_maps_in_key_order :
+  forallb (fun r => negb (String.eqb (iter_file r) "evaluate.go") || String.eqb (iter_class r) "sorted-bytewise") GoTables.go_map_iteration = true
+  /\ existsb (fun r => String.eqb (iter_file r) "evaluate.go" && String.eqb (iter_class r) "sorted-bytewise") GoTables.go_map_iteration = true.
+Proof. exact (conj TieOrder.evaluation_visits_maps_in_key_order TieOrder.evaluation_enumerates_a_map). Qed.
+Print Assumptions c14_code_visits_maps_in_key_order.
